@@ -2,6 +2,8 @@ import L4.Matchers.Small
 import L4.Matchers.Wireguard
 import L4.Matchers.More
 import L4.Proofs.Router
+import L4.Proofs.Res
+import L4.Proofs.Postgres
 /-!
 # C14 — Protocol matchers accept exactly what the wire definition and the filters say
 
@@ -187,5 +189,155 @@ theorem wireguard_spec (zero : Nat) (bs : Bytes) (hne : bs ≠ []) :
     · split
       · rename_i h1 h2; simp only [Prog.run]; split <;> simp_all
       · simp_all [Prog.run]
+
+/-! ## socks4 and postgres -/
+section
+open L4.Prog
+
+
+/-- the declarative SOCKS4 predicate on the 8-byte request head: version 4, an enabled command, a destination port in
+the configured list (if any), a destination address in one of the configured networks (if any) -/
+def socks4Accept (cfg : Socks4Cfg) (buf : Bytes) : Prop :=
+  buf.getD 0 0 = 4 ∧ cfg.commands.contains (buf.getD 1 0).toNat = true ∧
+  (cfg.ports.isEmpty = true ∨ cfg.ports.contains (beNat ((buf.drop 2).take 2)) = true) ∧
+  ((cfg.cidrs.isEmpty = true ∧ cfg.v6only = false) ∨ cfg.cidrs.any (·.contains (beNat ((buf.drop 4).take 4))) = true)
+
+theorem socks4Body_spec (cfg : Socks4Cfg) (buf : Bytes) (h : buf.length = 8) :
+    socks4Body cfg buf = .ok .yes ↔ socks4Accept cfg buf := by
+  have i0 : idx buf 0 "socks4.buf[0]" = .ok (buf.getD 0 0) := by rw [idx_ok buf 0 _ (by omega)]; simp [List.getD, h]
+  have i1 : idx buf 1 "socks4.buf[1]" = .ok (buf.getD 1 0) := by rw [idx_ok buf 1 _ (by omega)]; simp [List.getD, h]
+  have s1 := slice_ok buf 2 4 "socks4.buf[2:4]" (by omega) (by omega)
+  have s2 := slice_ok buf 4 8 "socks4.buf[4:8]" (by omega) (by omega)
+  unfold socks4Body socks4Accept
+  simp only [i0, i1, s1, s2, Res.bind_ok]
+  by_cases h0 : buf.getD 0 0 = 4
+  · by_cases h1 : cfg.commands.contains (buf.getD 1 0).toNat = true
+    · by_cases hp : cfg.ports.isEmpty = true
+      · by_cases hc : cfg.cidrs.isEmpty = true
+        · by_cases hv : cfg.v6only = true
+          · by_cases ha : cfg.cidrs.any (·.contains (beNat ((buf.drop 4).take 4))) = true <;>
+              simp_all [pure]
+          · simp_all [pure]
+        · by_cases ha : cfg.cidrs.any (·.contains (beNat ((buf.drop 4).take 4))) = true <;>
+            simp_all [pure]
+      · by_cases hpp : cfg.ports.contains (beNat ((buf.drop 2).take 2)) = true
+        · by_cases hc : cfg.cidrs.isEmpty = true
+          · by_cases hv : cfg.v6only = true
+            · by_cases ha : cfg.cidrs.any (·.contains (beNat ((buf.drop 4).take 4))) = true <;>
+                simp_all [pure]
+            · simp_all [pure]
+          · by_cases ha : cfg.cidrs.any (·.contains (beNat ((buf.drop 4).take 4))) = true <;>
+              simp_all [pure]
+        · simp_all [pure]
+    · simp_all [pure]
+  · simp_all [pure]
+
+/-- **SOCKS4**: the matcher says yes exactly when the first 8 bytes are present and satisfy the declarative predicate -/
+theorem socks4_spec (cfg : Socks4Cfg) (bs : Bytes) :
+    (socks4 cfg).run bs = .yes ↔ 8 ≤ bs.length ∧ socks4Accept cfg (bs.take 8) := by
+  simp only [socks4, Prog.run]
+  by_cases hl : 8 ≤ bs.length
+  · rw [if_pos hl]
+    have hb : (bs.take 8).length = 8 := by rw [List.length_take]; omega
+    rw [← socks4Body_spec cfg _ hb]
+    cases hr : socks4Body cfg (bs.take 8) with
+    | ok v => simp [Prog.ofRes, Prog.run, hl]
+    | err c => simp [Prog.ofRes, Prog.run, hl]
+    | panic s => simp [Prog.ofRes, Prog.run, hl]
+  · rw [if_neg hl]; simp [hl]
+
+
+
+/-- the declarative Postgres predicate on the startup packet body (everything after the 4-byte size): an SSLRequest, or
+protocol major ≥ 3 with a non-empty first parameter name -/
+def pgAccept (data : Bytes) : Prop :=
+  beNat (data.take 4) = l4postgres_sslRequestCode ∨
+  (3 ≤ beNat (data.take 4) / 65536 ∧ 4 < data.length ∧ data.getD 4 0 ≠ 0)
+
+theorem pgBody_spec (data : Bytes) (h : 4 ≤ data.length) : pgBody data = .ok .yes ↔ pgAccept data := by
+  unfold pgBody pgAccept
+  rw [slice_ok data 0 4 _ (by omega) h]
+  simp only [Res.bind_ok, List.drop_zero, Nat.sub_zero]
+  by_cases hs : beNat (data.take 4) = l4postgres_sslRequestCode
+  · simp [hs, pure]
+  · rw [if_neg hs]
+    by_cases hv : beNat (data.take 4) / 65536 < 3
+    · rw [if_pos hv]
+      constructor
+      · intro h; cases h
+      · rintro (h | ⟨h, _⟩)
+        · exact absurd h hs
+        · omega
+    · rw [if_neg hv]
+      obtain ⟨n, hn, _⟩ := pgParams_ge data (data.length + 1) 4 0
+      have hp := pgParams_pos_iff data data.length n hn
+      rw [hn]
+      simp only [Res.bind_ok, pure]
+      constructor
+      · intro h
+        right
+        refine ⟨by omega, hp.mp ?_⟩
+        by_cases hn0 : n > 0
+        · exact hn0
+        · rw [if_neg hn0] at h; cases h
+      · rintro (h | ⟨_, h2⟩)
+        · exact absurd h hs
+        · rw [if_pos (hp.mpr h2)]
+
+/-- **Postgres**: the matcher says yes exactly when the 4-byte size announces a body of 4 … 16380 bytes, the body is
+there, and it satisfies the declarative predicate -/
+theorem postgres_spec (bs : Bytes) :
+    postgres.run bs = .yes ↔
+      4 ≤ bs.length ∧ 8 ≤ beNat (bs.take 4) ∧ beNat (bs.take 4) ≤ 2 * layer4_MaxMatchingBytes ∧
+      beNat (bs.take 4) ≤ bs.length ∧ pgAccept ((bs.drop 4).take (beNat (bs.take 4) - 4)) := by
+  have h4 : l4postgres_initMessageSizeLength = 4 := rfl
+  simp only [postgres, Prog.run]
+  by_cases hl : l4postgres_initMessageSizeLength ≤ bs.length
+  · rw [if_pos hl]
+    by_cases hsz : beNat (bs.take l4postgres_initMessageSizeLength) < l4postgres_initMessageSizeLength + 4 ∨
+        beNat (bs.take l4postgres_initMessageSizeLength) > 2 * layer4_MaxMatchingBytes
+    · rw [if_pos hsz]
+      simp only [Prog.run]
+      rw [h4] at hsz
+      constructor
+      · intro h; cases h
+      · rintro ⟨_, h1, h2, _⟩; omega
+    · rw [if_neg hsz]
+      simp only [Prog.run, List.length_drop]
+      rw [h4] at hsz hl
+      simp only [h4]
+      by_cases hd : beNat (bs.take 4) - 4 ≤ bs.length - 4
+      · rw [if_pos hd]
+        have hdl : ((bs.drop 4).take (beNat (bs.take 4) - 4)).length = beNat (bs.take 4) - 4 := by
+          rw [List.length_take, List.length_drop]; omega
+        rw [← pgBody_spec _ (by omega)]
+        cases hr : pgBody ((bs.drop 4).take (beNat (bs.take 4) - 4)) with
+        | ok v =>
+          simp only [Prog.ofRes, Prog.run]
+          constructor
+          · intro h; subst h; exact ⟨hl, by omega, by omega, by omega, rfl⟩
+          · rintro ⟨_, _, _, _, h⟩; injection h
+        | err c =>
+          simp only [Prog.ofRes, Prog.run]
+          constructor
+          · intro h; cases h
+          · rintro ⟨_, _, _, _, h⟩; cases h
+        | panic s =>
+          simp only [Prog.ofRes, Prog.run]
+          constructor
+          · intro h; cases h
+          · rintro ⟨_, _, _, _, h⟩; cases h
+      · rw [if_neg hd]
+        constructor
+        · intro h; cases h
+        · rintro ⟨_, _, _, h3, _⟩; omega
+  · rw [if_neg hl]
+    rw [h4] at hl
+    constructor
+    · intro h; cases h
+    · rintro ⟨h, _⟩; omega
+
+
+end
 
 end L4.C14
